@@ -121,7 +121,11 @@ impl Selector {
                     }
                     _ => false,
                 },
-                SelectorComponent::Star => Self::do_matches(&comps[1..], node),
+                SelectorComponent::Star => {
+                    // `*` stands for any element, not for the document node
+                    // above the root element.
+                    matches!(node.data, Element { .. }) && Self::do_matches(&comps[1..], node)
+                }
                 SelectorComponent::CombChild => {
                     if let Some(parent) = node.get_parent() {
                         Self::do_matches(&comps[1..], &parent)
